@@ -107,7 +107,7 @@ class Ctx:
               (tr["name"], tr["events"], tr["cases"], len(seen_cases), len(tr["knowns"]), tr["wall_s"]))
         return tr
 
-    def finish(self):
+    def finish(self, write=True):
         wall = time.time() - self.t0
         for dev, hits in sorted(self.knowns_hit.items()):
             print("KNOWN-FINDING: property=%s %s: %s (%d cases this run, e.g. %s)" % (self.prop, dev, self.known.get(dev, "?"), len(hits), hits[0]))
@@ -134,7 +134,8 @@ class Ctx:
             "repo_head": C.git_head(C.REPO),
         }
         cov.update(self.extra)
-        C.write_evidence(self.prop, self.tier, self.seed, "model_checking", cov, self.assumptions, wall, len(self.violations))
+        if write:
+            C.write_evidence(self.prop, self.tier, self.seed, "model_checking", cov, self.assumptions, wall, len(self.violations))
         C.log("%s %s: %s in %.1fs" % (self.prop, self.tier, "VIOLATION" if self.violations else "ok", wall))
         return 1 if self.violations else 0
 
@@ -184,6 +185,9 @@ def run_one(props, prop, tier, seed, replay):
     if not replay or True:
         bt = C.build_harness()
         C.log("  harness built in %.1fs" % bt)
+    if replay:
+        props.replay(ctx, os.path.abspath(replay))
+        return ctx.finish(write=False)
     props.PROPS[prop](ctx)
     return ctx.finish()
 
